@@ -481,8 +481,15 @@ func TestC18Reuse(t *testing.T) {
 	rapid.Check(t, func(t *rapid.T) {
 		srcs := []string{"https://a.example/src", "https://b.example/src?x=1"}
 		schemas := []string{"", "https://a.example/schema", "https://b.example/schema"}
-		f := &cloudevents.FormatterFilter{Signer: func(_ context.Context, b []byte) (string, error) { return "sig", nil }}
-		n := rapid.IntRange(2, 6).Draw(t, "events")
+		signerFails := false
+		f := &cloudevents.FormatterFilter{Signer: func(_ context.Context, b []byte) (string, error) {
+			if signerFails {
+				return "", errors.New("harness: signer failed")
+			}
+			return "sig", nil
+		}}
+		idsSeen := map[string]int{}
+		n := rapid.IntRange(2, 8).Draw(t, "events")
 		var hist []string
 		changes := 0
 		prev := ""
@@ -518,8 +525,17 @@ func TestC18Reuse(t *testing.T) {
 			}
 			prev = cfg
 			hist = append(hist, cfg)
+			// the signer may fail for some events (only matters when the type is listed): such an event is not forwarded
+			signerFails = rapid.IntRange(0, 2).Draw(t, "signerFails") == 0
 			ev := &eventlogger.Event{Type: "T", CreatedAt: time.Now(), Formatted: map[string][]byte{}, Payload: map[string]interface{}{"i": i}}
 			out, err := f.Process(context.Background(), ev)
+			if signerFails && listed {
+				hist = append(hist, "(signer failed)")
+				if err == nil || out != nil {
+					t.Fatalf("VIOLATION C18: event %d: signing failed but the event was forwarded (event=%v err=%v)\nhistory: %v", i, out != nil, err, hist)
+				}
+				continue
+			}
 			if err != nil || out == nil {
 				t.Fatalf("VIOLATION C18: event %d on a reused formatter failed: %v\nhistory: %v", i, err, hist)
 			}
@@ -539,6 +555,11 @@ func TestC18Reuse(t *testing.T) {
 			if m["source"] != src {
 				t.Fatalf("VIOLATION C18: event %d: source %v, configured %s\nhistory: %v", i, m["source"], src, hist)
 			}
+			id, _ := m["id"].(string)
+			if prevEv, dup := idsSeen[id]; dup || id == "" {
+				t.Fatalf("VIOLATION C18: event %d was given the generated id %q, which the forwarded event %d of the same formatter already carries (ids are fresh and unique)\nhistory: %v", i, id, prevEv, hist)
+			}
+			idsSeen[id] = i
 			ds, has := m["dataschema"]
 			if (sch != "") != has || (has && ds != sch) {
 				t.Fatalf("VIOLATION C18: event %d: dataschema %v (present=%v), configured %q\nhistory: %v", i, ds, has, sch, hist)
